@@ -29,22 +29,74 @@
 
     // NOT BUILT / not decided: FIFO order and exactly-once delivery of the queue.  Two obligations were written for it
     // (2 producers x 2 values, and 1 producer x 1 value) - CBMC does not finish either within 5-10 minutes: the queue is
-    // a VecDeque::with_capacity(64) and its ring-buffer index arithmetic under a symbolic "receiver parked" flag is what
-    // the solver gets stuck in.  Only the disconnection probe below runs.
+    // a VecDeque::with_capacity(64) and its ring-buffer index arithmetic / element reads are what the solver gets stuck in.
+    // The disconnection obligations below never put a value into the queue.
 
-    /// Disconnection of the queue: once every sender has been dropped and the queue is empty the receiver is told so
-    /// (Ready(None)) instead of waiting forever.
+    fn state_of(rx: &MpscReceiver<u32>) -> (bool, bool, usize) {
+        critical_section::with(|cs| {
+            let i = rx.inner.borrow(cs).borrow();
+            (i.is_closed, i.waker.is_some(), i.sender_count)
+        })
+    }
+
+    /// Disconnection of the queue (the known finding KF-C34-MPSC-NO-DISCONNECT of earlier revisions, now repaired): with 1
+    /// or 2 senders (clone) and the receiver parked or not, dropping a sender that is not the last neither wakes nor
+    /// closes; dropping the LAST sender closes the queue, wakes a parked receiver exactly once, and the receiver is told so
+    /// (Ready(None)) instead of waiting forever; sender_count equals the number of live senders throughout; a send on a
+    /// live sender is never refused.
     /// @props C34
-    /// @kind bounded
+    /// @kind proof
     /// @tier quick
-    /// @known KF-C34-MPSC-NO-DISCONNECT
-    /// @bounds 1 sender, empty queue
+    /// @bounds none on the finite state explored: receiver parked or not x 1 or 2 senders; the queue stays empty
     /// @cbmc --unwind 4 --unwindset memcmp.0:18
-    /// @fn <MpscReceiverFuture as Future>::poll, MpscSender (no Drop impl)
+    /// @fn <MpscSender as Clone>::clone, <MpscSender as Drop>::drop, <MpscReceiverFuture as Future>::poll
     #[cfg_attr(kani, kani::proof)]
     #[cfg_attr(kani, kani::stub(critical_section::acquire, verif_support::cs_acquire))]
     #[cfg_attr(kani, kani::stub(critical_section::release, verif_support::cs_release))]
-    fn c34_kf_mpsc_reports_disconnection_when_all_senders_dropped() {
+    fn c34_mpsc_reports_disconnection_when_all_senders_dropped() {
+        let (tx, rx) = mpsc_channel::<u32>();
+        let c = counter();
+        let w = Waker::from(c.clone());
+        let two: bool = kani::any();
+        let tx2 = if two { Some(tx.clone()) } else { None };
+        assert!(state_of(&rx).2 == if two { 2 } else { 1 }, "C34: sender_count equals the number of live senders");
+        let parked: bool = kani::any();
+        if parked {
+            assert!(poll_code(&rx, &w).0 == 0, "C34: empty queue and a live sender: Pending");
+            assert!(state_of(&rx).1, "C34: the receiver's waker is registered");
+        }
+        if two {
+            drop(tx2);
+            let (closed, _, n) = state_of(&rx);
+            assert!(!closed && n == 1 && wakes(&c) == 0, "C34: dropping a sender that is not the last neither closes nor wakes");
+            assert!(poll_code(&rx, &w).0 == 0, "C34: no disconnection while a sender is alive");
+        }
+        drop(tx);
+        let (closed, has_waker, n) = state_of(&rx);
+        assert!(closed && n == 0, "C34: dropping the last sender closes the queue");
+        assert!(!has_waker, "C34 invariant: no parked waker once the queue is closed");
+        let expected = if parked || two { 1 } else { 0 };
+        assert!(wakes(&c) == expected, "C34: a parked receiver is woken exactly once by the last drop");
+        assert!(poll_code(&rx, &w).0 == 2, "C34: disconnection reported when the sending side is gone and the queue is empty");
+        kani::cover!(two && parked);
+        kani::cover!(!two && !parked);
+        core::mem::forget(rx);
+        core::mem::forget(w);
+        core::mem::forget(c);
+    }
+
+    /// The history of the repaired finding on its own (it refers to no field of the inner state, so it can be replayed
+    /// against older trees): create the queue, drop the only sender without sending, poll: Ready(None), not Pending.
+    /// @props C34
+    /// @kind proof
+    /// @tier quick
+    /// @bounds none (concrete history)
+    /// @cbmc --unwind 4 --unwindset memcmp.0:18
+    /// @fn <MpscReceiverFuture as Future>::poll, <MpscSender as Drop>::drop
+    #[cfg_attr(kani, kani::proof)]
+    #[cfg_attr(kani, kani::stub(critical_section::acquire, verif_support::cs_acquire))]
+    #[cfg_attr(kani, kani::stub(critical_section::release, verif_support::cs_release))]
+    fn c34_mpsc_drop_without_send_reports_disconnection() {
         let (tx, rx) = mpsc_channel::<u32>();
         let c = counter();
         let w = Waker::from(c.clone());
